@@ -2,7 +2,7 @@
 R40 action-key flow, R41 renderers read only the record, R42 dump arity."""
 import ast
 
-from ..model import AnalysisError, need, call_name, const_str, unparse
+from ..model import AnalysisError, need, call_name, const_str, unparse, alpha_body, alpha_src
 from ..cfg import cfg_of, calls_at
 from .common import rules, deriv, stmt_text, node_effects, all_funcs_of, effects
 
@@ -184,7 +184,8 @@ def r38_first_and_last_action(ctx):
     pc = ctx.repo.func('droop.election.Election.postCheck')
     asserts = [n for n in pc.own_nodes() if isinstance(n, ast.Assert)]
     txt = unparse(asserts[0].test) if asserts else ''
-    okp = len(asserts) == 1 and 'nElected == self.nSeats' in txt and 'nElected == nEligible' in txt
+    okp = alpha_body(pc.node) == alpha_src('def postCheck(self):\n nElected = len(self.elected)\n nEligible = len(self.C.eligible())\n'
+                                           ' assert nElected == self.nSeats or (nElected < self.nSeats and nElected == nEligible)')
     ctx.check(okp, R, pc.node, pc, 'postCheck asserts that the seats are filled or every eligible candidate is elected',
               txt, 'postCheck no longer asserts the seat count')
 
@@ -314,12 +315,52 @@ def _log_excluded(ctx, f, node, var, skip_tags=('log',)):
     return True
 
 
+def _action_var(f):
+    """the local that holds one action dict: appended to self['actions'] (recorder) or the loop variable over
+    self['actions'] (renderers)"""
+    for n in f.own_nodes():
+        if isinstance(n, ast.Call) and isinstance(n.func, ast.Attribute) and n.func.attr == 'append' and unparse(n.func.value) == "self['actions']" \
+                and len(n.args) == 1 and isinstance(n.args[0], ast.Name):
+            return n.args[0].id
+    for n in f.own_nodes():
+        if isinstance(n, ast.For) and unparse(n.iter) == "self['actions']" and isinstance(n.target, ast.Name):
+            return n.target.id
+    raise AnalysisError('%s: no local holding an action of self[\'actions\'] found' % f.qualname)
+
+
+def _record_derived(g):
+    """names of g that refer to the record or a part of it: the parameters, and locals defined as a subscript of /
+    an element of / a .get() on such a name (transitively)"""
+    names = set(g.params)
+    changed = True
+    while changed:
+        changed = False
+        for nm, defs in g.assigns().items():
+            if nm in names:
+                continue
+            for val, st in defs:
+                src = None
+                if isinstance(val, ast.Subscript):
+                    src = val.value
+                elif isinstance(val, ast.Call) and isinstance(val.func, ast.Attribute) and val.func.attr in ('get', 'items', 'values'):
+                    src = val.func.value
+                elif hasattr(val, 'for_node'):
+                    src = val.for_node.iter
+                while isinstance(src, (ast.Subscript, ast.Call, ast.Attribute)):
+                    src = src.value if not isinstance(src, ast.Call) else src.func
+                if isinstance(src, ast.Name) and src.id in names:
+                    names.add(nm)
+                    changed = True
+    return names
+
+
 def r40_action_key_flow(ctx):
     R = 'R40'
     repo = ctx.repo
     rec = repo.cls(RECORD)
     act = rec.methods['action']
-    base_keys = _key_stores(act, ('A',))
+    av_act = _action_var(act)
+    base_keys = _key_stores(act, (av_act,))
     need(set(BASE_KEYS) <= base_keys, 'R40: ElectionRecord.action does not create tag/msg/round')
     # keys stored for log actions: those stored before the log fast path returns = dict(...) literal
     log_keys = set(BASE_KEYS)
@@ -361,18 +402,18 @@ def r40_action_key_flow(ctx):
                         if secs:
                             sites = [c for c in report.own_nodes() if isinstance(c, ast.Call) and isinstance(c.func, ast.Attribute)
                                      and c.func.attr == 'report' and len(c.args) >= 3 and const_str(c.args[2]) in secs]
-                            if sites and all(_log_excluded(ctx, report, c, 'A') for c in sites):
+                            if sites and all(_log_excluded(ctx, report, c, _action_var(report)) for c in sites):
                                 ok, how = True, "read under section %s, which ElectionRecord.report invokes only after its " \
                                                 "log/round fast paths" % '/'.join(sorted(secs))
                 else:
                     sites = [c for c in dump.own_nodes() if isinstance(c, ast.Call) and isinstance(c.func, ast.Attribute)
                              and c.func.attr == 'dump' and any(kw.arg == 'action' for kw in c.keywords)]
-                    if sites and all(_log_excluded(ctx, dump, c, 'A') for c in sites):
+                    if sites and all(_log_excluded(ctx, dump, c, _action_var(dump)) for c in sites):
                         ok, how = True, 'dump hooks receive an action only in the branch that excludes log actions'
                 ctx.check(ok, R, node, h, what, how, "action['%s'] is not stored for 'log' actions, and this read is reachable for one" % k)
     # ElectionRecord.report / dump themselves
     for f in (report, dump):
-        for k, node, rv in _key_loads(f, ('A',)):
+        for k, node, rv in _key_loads(f, (_action_var(f),)):
             n += 1
             what = "ElectionRecord.%s reads A['%s'] only from actions that carry it" % (f.name, k)
             if k in log_keys:
@@ -380,7 +421,7 @@ def r40_action_key_flow(ctx):
             elif k not in base_keys:
                 ctx.bad(R, node, f, what, "ElectionRecord.action does not store A['%s']" % k)
             else:
-                ctx.check(_log_excluded(ctx, f, node, 'A'), R, node, f, what,
+                ctx.check(_log_excluded(ctx, f, node, _action_var(f)), R, node, f, what,
                           "dominated by an edge on which A['tag'] != 'log'",
                           "A['%s'] is read for 'log' actions, which carry only tag/msg/round: KeyError" % k)
     ctx.floor(R, 'action key reads', n, 20)
@@ -419,8 +460,10 @@ def _check_cstate_keys(ctx, R):
     asd = cand.methods['as_dict']
     uncond = set()
     cond = {}
+    cdict_names = set(r_.value.id for r_ in asd.own_nodes() if isinstance(r_, ast.Return) and isinstance(r_.value, ast.Name))
+    need(cdict_names, 'Candidate.as_dict does not return a local dict')
     for n in asd.own_nodes():
-        if isinstance(n, ast.Subscript) and isinstance(n.ctx, ast.Store) and isinstance(n.value, ast.Name) and n.value.id == 'cdict':
+        if isinstance(n, ast.Subscript) and isinstance(n.ctx, ast.Store) and isinstance(n.value, ast.Name) and n.value.id in cdict_names:
             k = const_str(n.slice)
             st = repo.enclosing_stmt(n)
             par = st.parent
@@ -438,6 +481,11 @@ def _check_cstate_keys(ctx, R):
                 if isinstance(n, ast.Subscript) and isinstance(n.ctx, ast.Load) and const_str(n.slice) in cond:
                     k = const_str(n.slice)
                     base = unparse(n.value)
+                    b_ = n.value
+                    while isinstance(b_, ast.Subscript):
+                        b_ = b_.value
+                    if isinstance(b_, ast.Name) and b_.id in h.assigns():
+                        base += ' ' + ' '.join(unparse(v_) for v_, _s in h.assigns()[b_.id] if isinstance(v_, ast.AST))
                     if 'cstate' not in base:
                         continue
                     field = cond[k].split('.')[-1]
@@ -489,7 +537,7 @@ def r41_renderers_read_record(ctx):
                                   '%s reads live count state %s instead of the recorded value' % (g.qualname, p), nontrivial=False)
                 # no stores into the record or its actions
                 if isinstance(node, ast.Subscript) and isinstance(node.ctx, (ast.Store, ast.Del)) and isinstance(node.value, ast.Name) \
-                        and node.value.id in ('self', 'record', 'action', 'A', 'cstate'):
+                        and node.value.id in _record_derived(g):
                     ctx.bad(R, node, g, 'renderers do not modify the record', 'store into %s[...] while rendering' % node.value.id)
     ctx.floor(R, 'election-object reads in renderers', n, 10)
 
@@ -536,8 +584,18 @@ def _one_output_per_action(ctx, R, f, outvar, skip_ok=None):
 def r42_dump_arity(ctx):
     R = 'R42'
     repo = ctx.repo
-    _one_output_per_action(ctx, R, repo.func(RECORD + '.dump'), 'dumps')
-    _one_output_per_action(ctx, R, repo.func(RECORD + '.report'), 'report',
+    def out_var(f):
+        """the list the renderer joins and returns"""
+        for r_ in f.own_nodes():
+            if isinstance(r_, ast.Return) and r_.value is not None:
+                v_ = r_.value
+                if isinstance(v_, ast.Call) and isinstance(v_.func, ast.Attribute) and v_.func.attr == 'join' and len(v_.args) == 1:
+                    v_ = v_.args[0]
+                if isinstance(v_, ast.Name):
+                    return v_.id
+        raise AnalysisError('R42: %s does not return a joined list' % f.qualname)
+    _one_output_per_action(ctx, R, repo.func(RECORD + '.dump'), out_var(repo.func(RECORD + '.dump')))
+    _one_output_per_action(ctx, R, repo.func(RECORD + '.report'), out_var(repo.func(RECORD + '.report')),
                            skip_ok=lambda c, x: ctx.canon(c.func, repo.func(RECORD + '.report')) == 'E.rule.report' and len(c.args) >= 3
                            and const_str(c.args[2]) == 'action' and x.kind == 'test')
     # hooks: header branch vs data branch for (cid is None) and (cid is not None)
@@ -563,16 +621,22 @@ def r42_dump_arity(ctx):
                       '%s: header branch appends %d column name(s), data branch %d value(s): rows and header disagree' % (label, hd, dt))
     # ElectionRecord.dump: header construction vs row constructions
     d = repo.func(RECORD + '.dump')
-    hdr = [s for s in d.own_nodes() if isinstance(s, ast.Assign) and isinstance(s.targets[0], ast.Name) and s.targets[0].id == 'h'
+    hooks = [c for c in d.own_nodes() if isinstance(c, ast.Call) and ctx.canon(c.func, d) == 'E.rule.dump' and c.args and isinstance(c.args[0], ast.Name)]
+    hnames = set(c.args[0].id for c in hooks if not any(k.arg == 'action' for k in c.keywords))
+    rnames = set(c.args[0].id for c in hooks if any(k.arg == 'action' for k in c.keywords))
+    need(len(hnames) == 1 and len(rnames) == 1, 'R42: the header / row lists handed to E.rule.dump are not one local each (%s / %s)' % (hnames, rnames))
+    hname, rname = list(hnames)[0], list(rnames)[0]
+    hdr = [s for s in d.own_nodes() if isinstance(s, ast.Assign) and isinstance(s.targets[0], ast.Name) and s.targets[0].id == hname
            and isinstance(s.value, ast.List)]
     need(len(hdr) == 1, 'R42: header list `h = [...]` not found in ElectionRecord.dump')
     hbase = len(hdr[0].value.elts)
-    hloop = [s for s in d.node.body if isinstance(s, ast.For) and unparse(s.iter) == 'ecids']
+    hloop = [s for s in d.node.body if isinstance(s, ast.For) and isinstance(s.iter, ast.Name)
+             and any(c in hooks and c.args[0].id == hname for x_ in s.body for c in ast.walk(x_))]
     need(len(hloop) == 1, 'R42: per-candidate header loop not found')
-    hper = _appended_counts(d, 'h', hloop[0].body)
-    hook_h = [c for c in d.own_nodes() if isinstance(c, ast.Call) and ctx.canon(c.func, d) == 'E.rule.dump'
-              and c.args and isinstance(c.args[0], ast.Name) and c.args[0].id == 'h']
-    rows = [s for s in d.own_nodes() if isinstance(s, ast.Assign) and isinstance(s.targets[0], ast.Name) and s.targets[0].id == 'r'
+    ecids = hloop[0].iter.id
+    hper = _appended_counts(d, hname, hloop[0].body)
+    hook_h = [c for c in hooks if c.args[0].id == hname]
+    rows = [s for s in d.own_nodes() if isinstance(s, ast.Assign) and isinstance(s.targets[0], ast.Name) and s.targets[0].id == rname
             and isinstance(s.value, ast.List)]
     need(rows, 'R42: no row construction `r = [...]` found')
     for row in rows:
@@ -581,8 +645,8 @@ def r42_dump_arity(ctx):
         idx = blk.index(row)
         rest = blk[idx + 1:]
         rbase = len(row.value.elts)
-        rloops = [s for s in rest if isinstance(s, ast.For) and unparse(s.iter) == 'ecids']
-        rper = _appended_counts(d, 'r', rloops[0].body) if rloops else None
+        rloops = [s for s in rest if isinstance(s, ast.For) and unparse(s.iter) == ecids]
+        rper = _appended_counts(d, rname, rloops[0].body) if rloops else None
         hook_r = [c for s in rest for c in ast.walk(s) if isinstance(c, ast.Call) and ctx.canon(c.func, d) == 'E.rule.dump']
         same_shape = rbase == hbase and rper == hper and len(hook_r) == len(hook_h)
         ctx.check(same_shape, R, row, d, 'every dump row has the column count of the header',
